@@ -42,7 +42,16 @@ def stretch(case, z):
             vals.append(float(z.loc[lab]))
         else:
             vals.append(base[k] + 5.0)
-    return gen.build_series(vals, s0, case["index_kind"])
+    z2 = gen.build_series(vals, s0, case["index_kind"])
+    inc = case.get("stretch_steps")
+    if inc:
+        # time points with gaps between them (like the forecast of a gapped horizon)
+        labs, cur = [], s0
+        for k in range(m):
+            labs.append(cur)
+            cur += inc[k % len(inc)]
+        z2 = pd.Series(z2.to_numpy(), index=pd.Index(np.array(labs, dtype="int64")))
+    return z2
 
 
 def build(spec):
@@ -108,7 +117,10 @@ def do_updates(t, z, case, spec):
     for k in case["updates"]:
         zb = gen.build_series([21.0 + 0.5 * j + ((j * 7) % 5) / 3.0 for j in range(k)], last + 1, case["index_kind"])
         if hasattr(t, "update"):
-            r = sut(t.update, zb.copy())
+            if case.get("update_params") is False:
+                r = sut(t.update, zb.copy(), None, False)
+            else:
+                r = sut(t.update, zb.copy())
             if isinstance(r, Raised):
                 return r
         last += k
@@ -144,9 +156,20 @@ def oracle_inverse(case, ctx):
             return discs
         if list(a.index) != list(b.index) or not close(a, b, 1e-12):
             discs.append(D("fit_transform_differs:%s" % desc, "fit_transform %s vs fit().transform %s" % (np.asarray(a)[:4], np.asarray(b)[:4])))
+    frozen = case.get("update_params") is False and bool(case["updates"]) and hasattr(t, "update") and spec["kind"] != "pipeline_as_transformer"
+    before = sut(t.transform, z.copy()) if frozen else None
     u = do_updates(t, z, case, spec)
     if isinstance(u, Raised):
         return discs + [D("update_raised:%s:%s" % (desc, u.type), u.msg)]
+    if frozen and not isinstance(before, Raised):
+        # update(..., update_params=False) only takes note of the new data: what the
+        # transformer does to a given series is the same before and after
+        after = sut(t.transform, z.copy())
+        ctx.label("update_without_parameter_update")
+        if isinstance(after, Raised) or not close(before, after, 1e-12):
+            discs.append(D("update_params_false_changes_transform:%s" % desc, "transform(train) before %s after %s"
+                           % (np.asarray(before, dtype=float)[:4].tolist(), after if isinstance(after, Raised) else np.asarray(after, dtype=float)[:4].tolist())))
+            return discs
     for name, zz in (("train", z), ("stretch", stretch(case, z))):
         zt = sut(t.transform, zz.copy())
         if isinstance(zt, Raised):
@@ -220,7 +243,7 @@ def oracle_phase(case, ctx):
             c2 = (a - b) if model == "additive" else (a / b)
         else:
             c2 = (b - a) if model == "additive" else (b / a)
-        want = np.array([base[(case["off"] + k) % sp] for k in range(len(z2))])
+        want = np.array([base[(int(lab) - int(z.index[0])) % sp] for lab in z2.index])
         if not np.allclose(c2, want, rtol=1e-8, atol=1e-8):
             bad = int(np.argmax(~np.isclose(c2, want, rtol=1e-8, atol=1e-8)))
             discs.append(D("seasonal_phase:%s" % what, "sp=%d model=%s off=%d len=%d updates=%s: position %d removed %r, fitted component for that phase %r"
@@ -303,8 +326,9 @@ def base_case(draw, spec_strategy):
         # the stretch may also start before the training series (overlapping it or not)
         "off": draw(st.one_of(st.integers(0, n + 20), st.integers(0, n + 20), st.integers(-14, -1))), "m": draw(st.integers(2, 20)),
         "reuse_train_values": draw(st.booleans()),
+        "stretch_steps": draw(st.one_of(st.none(), st.none(), st.lists(st.integers(1, 4), min_size=1, max_size=4))),
         "prefit": draw(st.sampled_from([None, None, None, -5, 1, 2, 7])), "prefit_other_params": draw(st.booleans()),
-        "updates": draw(st.lists(st.integers(1, 7), max_size=2)),
+        "updates": draw(st.lists(st.integers(1, 7), max_size=2)), "update_params": draw(st.sampled_from([True, True, False])),
     }
 
 
